@@ -32,6 +32,7 @@ theorem tablesStages : Stages (Keeps Tables) where
   setFail s n := fun h => tables_of_same h ⟨rfl, rfl, rfl, rfl, rfl, rfl, rfl⟩
   setNow s n := fun h => tables_of_same h ⟨rfl, rfl, rfl, rfl, rfl, rfl, rfl⟩
   setRr s := fun h => tables_of_same h ⟨rfl, rfl, rfl, rfl, rfl, rfl, rfl⟩
+  setHeld s hl := fun h => tables_of_same h ⟨rfl, rfl, rfl, rfl, rfl, rfl, rfl⟩
   addWaiter s w := fun h => tables_of_same h ⟨rfl, rfl, rfl, rfl, rfl, rfl, rfl⟩
   dropWaiter s id := fun h => tables_of_same h ⟨rfl, rfl, rfl, rfl, rfl, rfl, rfl⟩
   addSubConn s := fun h => tables_addSubConn h
@@ -345,6 +346,7 @@ theorem halfStages : Stages fun s s' => Tables s → Half s → Half s' where
   setFail s n := fun _ h => half_of_frame h ⟨⟨rfl, rfl, fun _ => rfl⟩, rfl, rfl⟩
   setNow s n := fun _ h => half_of_frame h ⟨⟨rfl, rfl, fun _ => rfl⟩, rfl, rfl⟩
   setRr s := fun _ h => half_of_frame h ⟨⟨rfl, rfl, fun _ => rfl⟩, rfl, rfl⟩
+  setHeld s hl := fun _ h => half_of_frame h ⟨⟨rfl, rfl, fun _ => rfl⟩, rfl, rfl⟩
   addWaiter s w := fun _ h => half_of_frame h ⟨⟨rfl, rfl, fun _ => rfl⟩, rfl, rfl⟩
   dropWaiter s id := fun _ h => half_of_frame h ⟨⟨rfl, rfl, fun _ => rfl⟩, rfl, rfl⟩
   addSubConn s := fun t h => half_addSubConn t h
@@ -691,6 +693,7 @@ theorem rdyStages : Stages fun s s' => (Tables s ∧ Half s) → Rdy s → Rdy s
   setFail s n := fun _ h => rdy_of_eq h rfl rfl rfl
   setNow s n := fun _ h => rdy_of_eq h rfl rfl rfl
   setRr s := fun _ h => rdy_of_eq h rfl rfl rfl
+  setHeld s hl := fun _ h => rdy_of_eq h rfl rfl rfl
   addWaiter s w := fun _ h => rdy_of_eq h rfl rfl rfl
   dropWaiter s id := fun _ h => rdy_of_eq h rfl rfl rfl
   addSubConn s := fun t h => rdy_addSubConn t.1 h
